@@ -35,6 +35,8 @@ Step ==
        [] e.a = "Load" -> Load(e.o, e.s) /\ UNCHANGED results
                           /\ fails' = fails \o HeapClause \o Fail(e.raised = "" /\ e.df_fp = e.fresh_fp, "C14.load")
        [] e.a = "Edit" -> EditDict(e.o, e.method, e.v) /\ fails' = fails \o HeapClause /\ UNCHANGED results
+       [] e.a = "SetCentre" -> SetCentre(e.o, e.method) /\ fails' = fails \o HeapClause \o Fail(e.raised = "", "C14.attribute_assignment_raised") /\ UNCHANGED results
+       [] e.a = "Rebind" -> Rebind(e.o, e.tk) /\ fails' = fails \o HeapClause \o Fail(e.raised = "", "C14.attribute_assignment_raised") /\ UNCHANGED results
        [] e.a = "GetAttr" -> GetAttr(e.o) /\ UNCHANGED results
                           /\ fails' = fails \o HeapClause
                                 \o Fail(e.attr_col = (IF obj[e.o].df.kind = "none" THEN "AttributeError" ELSE "column"), "C14.attribute_access_of_a_column")
